@@ -52,4 +52,6 @@ package blake2s
 //@ ensures implies(result == nil, forall(i, 0, 64, d.block[i] == b[44+i]))
 //@ ensures implies(result == nil && 0 <= old(d.keyLen) && old(d.keyLen) <= 32, dinv(d))
 //@ ensures implies(len(b) != 109, result != nil)
+// accepts exactly the well-formed states (in particular every state MarshalBinary produces)
+//@ ensures iff(result == nil, len(b) == 109 && b[0] == 'b' && b[1] == '2' && b[2] == 's' && 1 <= b[43] && b[43] <= 32 && b[108] <= 64)
 //@ canary ensures result == nil
